@@ -1096,15 +1096,16 @@ def row_order_cases(quick):
 
 
 def chain_cases(quick):
-    """Histories of real writes into one directory: quick {a; a,b; a,b,a; a,b-sub} x {write_output, cij run};
-    thorough every history of length 1..3 over {a, b, a-sub, b-sub} that starts with a full write."""
+    """Histories of real writes into one directory.  thorough: every history of length 1..3 over {a, b, a-sub,
+    b-sub} that starts with a full write x {write_output, cij run}; quick (each case pays its worker's first-
+    calculation warm-up): a, a.b, a.b-sub through write_output and a.b, a.b.a through `cij run`."""
     import itertools
     if quick:
-        hist = [["a"], ["a", "b"], ["a", "b", "a"], ["a", "b-sub"]]
-    else:
-        hist = [list(h) for L in (1, 2, 3) for h in itertools.product(sorted(CHAIN_RUNS), repeat=L) if not h[0].endswith("-sub")]
-    return [{"kind": "chain", "runs": h, "route": r} for h in hist for r in ("write_output", "cli-run")
-            if not (quick and len(h) == 1 and r == "cli-run")]
+        return [{"kind": "chain", "runs": h, "route": r} for h, r in (
+            (["a"], "write_output"), (["a", "b"], "write_output"), (["a", "b-sub"], "write_output"),
+            (["a", "b"], "cli-run"), (["a", "b", "a"], "cli-run"))]
+    hist = [list(h) for L in (1, 2, 3) for h in itertools.product(sorted(CHAIN_RUNS), repeat=L) if not h[0].endswith("-sub")]
+    return [{"kind": "chain", "runs": h, "route": r} for h in hist for r in ("write_output", "cli-run")]
 
 
 def decoy_cases():
